@@ -58,6 +58,53 @@ theorem C09_leaf_length (key : Bytes) (s : Str) :
   simp only
   rw [Siv.enc_length _ _ (Aes.encBlockRK_length _) (Aes.encBlockRK_length _)]
 
+/-! ### the ciphertext as it stands in the output line -/
+
+theorem esc_b64_chr : ∀ n : Fin 64, escChar (Base64.chr n.val) = [(Base64.chr n.val).toNat.toUInt8] := by decide +kernel
+
+theorem esc_pad : escChar '=' = [('=' : Char).toNat.toUInt8] := by decide
+
+theorem encNat_plain : ∀ (l : List Nat), Base64.Small l →
+    (Base64.encNat l).flatMap escChar = (Base64.encNat l).map fun c => c.toNat.toUInt8 := by
+  intro l
+  fun_induction Base64.encNat l with
+  | case1 => intro _; rfl
+  | case2 a =>
+    intro h
+    have ha : a < 256 := h a (by simp)
+    have h1 : a / 4 < 64 := by omega
+    have h2 : a % 4 * 16 < 64 := by omega
+    simp only [List.flatMap_cons, List.flatMap_nil, List.map_cons, List.map_nil, esc_b64_chr ⟨_, h1⟩, esc_b64_chr ⟨_, h2⟩, esc_pad]
+    rfl
+  | case3 a b =>
+    intro h
+    have ha : a < 256 := h a (by simp)
+    have hb : b < 256 := h b (by simp)
+    have h1 : a / 4 < 64 := by omega
+    have h2 : a % 4 * 16 + b / 16 < 64 := by omega
+    have h3 : b % 16 * 4 < 64 := by omega
+    simp only [List.flatMap_cons, List.flatMap_nil, List.map_cons, List.map_nil, esc_b64_chr ⟨_, h1⟩, esc_b64_chr ⟨_, h2⟩, esc_b64_chr ⟨_, h3⟩, esc_pad]
+    rfl
+  | case4 a b c rest ih =>
+    intro h
+    have ha : a < 256 := h a (by simp)
+    have hb : b < 256 := h b (by simp)
+    have hc : c < 256 := h c (by simp)
+    have hr : Base64.Small rest := fun x hx => h x (by simp [hx])
+    have h1 : a / 4 < 64 := by omega
+    have h2 : a % 4 * 16 + b / 16 < 64 := by omega
+    have h3 : b % 16 * 4 + c / 64 < 64 := by omega
+    have h4 : c % 64 < 64 := by omega
+    simp only [List.flatMap_cons, List.map_cons, esc_b64_chr ⟨_, h1⟩, esc_b64_chr ⟨_, h2⟩, esc_b64_chr ⟨_, h3⟩, esc_b64_chr ⟨_, h4⟩, ih hr]
+    rfl
+
+/-- **the ciphertext stands verbatim in the output line**: the serialiser escapes nothing in base64 text (no `\u002b`
+    for `+`, no `\/`), so what is between the quotes is exactly what `decrypt` expects on its command line -/
+theorem C09_leaf_verbatim (key : Bytes) (s : Str) :
+    printStr (Base64.enc (Siv.aesEnc key (utf8 s))) = [34] ++ Base64.encBytes (Siv.aesEnc key (utf8 s)) ++ [34] := by
+  unfold printStr Base64.enc Base64.encBytes Base64.enc
+  rw [encNat_plain _ (Base64.small_bytes _)]
+
 /-! ### the key file with the concrete codec -/
 
 /-- file bytes ↔ base64 text: Go's `string(bytes)` / `[]byte(string)` on ASCII text -/
